@@ -98,6 +98,11 @@ pub fn check_batch(b: &RecordBatch, schema: Option<&SchemaRef>) -> Result<(), (S
         if let Err(e) = spec_validate(c.as_ref()) {
             return Err((format!("spec:{}", vcore::strip_digits(&e)), format!("field {}: {e}", f.name())));
         }
+        // the validator written from the format document (shares no code with validate_full: a defect in
+        // arrow's own validation must not blind the oracle)
+        if let Err(e) = vmodel::validate::spec_validate(&c.to_data()) {
+            return Err((format!("format-spec:{}:{}", type_class(c.data_type()), e.split(':').next().unwrap_or("")), format!("field {} ({:?}): {e}", f.name(), f.data_type())));
+        }
     }
     Ok(())
 }
